@@ -186,9 +186,15 @@ package shape
 //@ -- The midpoint recursion (float thresholds, C06 proper) is ASSUMED to terminate without panicking and to do nothing
 //@ -- but emit IDs through its callback.
 //@ define ptid(p: object_Point, h, v) = join(getHorizontalTileIdOnPoint(p.lon, p.lat, h), getVerticalTileIdOnAltitude(p.alt, v))
+//@ -- its precondition is the gap-freedom condition on the stop thresholds: the recursion may stop when the end points
+//@ -- are closer than the thresholds on every axis, so no threshold may exceed the smallest extent of a voxel on its
+//@ -- axis (360/2^h degrees of longitude; at the latitude limit a row is cos(85.05 deg) = 0.0863 times that high;
+//@ -- 2^(25-v) metres)
 //@ func middleSpatialIds
 //@   trusted
 //@   emits operate
+//@   requires 0 <= hZoom && hZoom <= 35 && 0 <= vZoom && vZoom <= 35
+//@   requires [threshold-below-voxel-size] 0.0 < lonMinima && lonMinima <= 360.0 / rpow2(hZoom) && 0.0 < latMinima && latMinima <= 0.0863 * 360.0 / rpow2(hZoom) && 0.0 < altMinima && altMinima <= rpow2(25 - vZoom)
 //@ end
 //@ func GetExtendedSpatialIdsOnLine
 //@   props C06 C14 C15 C16
